@@ -369,18 +369,51 @@ impl Optimizer {
                             }
                         } else if refs_right && !refs_left {
                             // Predicate only references right side - push down to right
-                            // Need to adjust column indices
-                            let adjusted_predicate =
-                                Self::adjust_predicate_columns(&predicate, -(left_cols as i32));
-                            IRNode::Join {
-                                left,
-                                right: Box::new(IRNode::Filter {
-                                    input: right,
-                                    predicate: adjusted_predicate,
-                                }),
-                                left_keys,
-                                right_keys,
-                                output_schema,
+                            // Need to adjust column indices. A keyed join emits all of left
+                            // followed by the NON-KEY columns of right, so output column
+                            // `left_cols + n` is right's n-th non-key column (not column n).
+                            let right_cols = right.output_schema().len();
+                            let adjusted_predicate = if output_schema.len() == left_cols + right_cols {
+                                // schema lists every right column (no key elimination)
+                                Some(Self::adjust_predicate_columns(
+                                    &predicate,
+                                    -(left_cols as i32),
+                                ))
+                            } else {
+                                let mut next = left_cols;
+                                let right_to_output: Vec<usize> = (0..right_cols)
+                                    .map(|i| {
+                                        if right_keys.contains(&i) {
+                                            usize::MAX
+                                        } else {
+                                            next += 1;
+                                            next - 1
+                                        }
+                                    })
+                                    .collect();
+                                predicate.adjust_for_projection(&right_to_output)
+                            };
+                            match adjusted_predicate {
+                                Some(adjusted_predicate) => IRNode::Join {
+                                    left,
+                                    right: Box::new(IRNode::Filter {
+                                        input: right,
+                                        predicate: adjusted_predicate,
+                                    }),
+                                    left_keys,
+                                    right_keys,
+                                    output_schema,
+                                },
+                                None => IRNode::Filter {
+                                    input: Box::new(IRNode::Join {
+                                        left,
+                                        right,
+                                        left_keys,
+                                        right_keys,
+                                        output_schema,
+                                    }),
+                                    predicate,
+                                },
                             }
                         } else {
                             // Predicate references both sides - cannot push down
